@@ -6,3 +6,44 @@ package pac
 //@ func (*pac.KerbValidationInfo).GetGroupMembershipSIDs(k) (r)
 //@   pure
 //@   trusted_frame builds a fresh list
+
+// ---- property C19: a PAC is accepted only with the mandatory buffers and a valid server signature.
+
+// [MS-PAC] 2.8: signature length by checksum type (HMAC-MD5 16, HMAC-SHA1-96 12, RFC 8009 types 16 / 24)
+//@ define pac_siglen(t) := ite(t == 4294967158, 16, ite(t == 15 || t == 16, 12, ite(t == 19, 16, ite(t == 20, 24, 0))))
+//@ define le32at(b, o) := uint32(b[o]) | uint32(b[o+1]) << 8 | uint32(b[o+2]) << 16 | uint32(b[o+3]) << 24
+
+// PAC_SIGNATURE_DATA: the type is the little-endian word at 0, the signature the pac_siglen(type) octets after it;
+// the second result is the buffer with exactly the signature octets zeroed - everything else, including a trailing
+// RODC identifier, is kept (it is part of the data the checksums are computed over).
+//@ func (*pac.SignatureData).Unmarshal(k, b) (rb, err)
+//@   modifies *k
+//@   trusted_frame the reader works on a copy of b
+//@   ensures err == nil ==> len(b) >= 4 + pac_siglen(k.SignatureType) && k.SignatureType == le32at(b, 0)
+//@   ensures err == nil ==> len(k.Signature) == pac_siglen(k.SignatureType) && (forall i int :: 0 <= i && i < len(k.Signature) ==> k.Signature[i] == b[4 + i])
+//@   ensures err == nil ==> len(rb) == len(b) && (forall i int :: 0 <= i && i < len(b) ==> rb[i] == ite(4 <= i && i < 4 + pac_siglen(k.SignatureType), byte(0), b[i]))
+
+// The PAC is valid only with the four mandatory buffers and a server signature that is the keyed checksum of its
+// declared type (usage 17) over the PAC with the signature fields zeroed.
+//@ func (*pac.PACType).verify(pac, key) (ok, err)
+//@   pure
+//@   ensures !ok ==> err != nil
+//@   ensures ok ==> pac.KerbValidationInfo != nil && pac.ServerChecksum != nil && pac.KDCChecksum != nil && pac.ClientInfo != nil
+//@   ensures ok ==> exists t Ref :: cksum_etype_ok(int32(pac.ServerChecksum.SignatureType), t) && bytes(pac.ServerChecksum.Signature) == et_cksum(t, bytes(key.KeyValue), 17, bytes(pac.ZeroSigData))
+
+// Decoding keeps the PAC octets as Data and starts the to-be-signed copy ZeroSigData as an equal, separate buffer.
+//@ func (*pac.PACType).Unmarshal(pac, b) (err)
+//@   modifies *pac
+//@   trusted_frame the reader works on its own buffers
+//@   ensures pac.Data == b && len(pac.ZeroSigData) == len(b) && fresh(pac.ZeroSigData) && ref(pac.ZeroSigData) != 0
+//@   ensures forall i int :: 0 <= i && i < len(b) ==> pac.ZeroSigData[i] == b[i]
+//@   ensures err == nil ==> len(pac.Buffers) == int(pac.CBuffers)
+
+// Processing succeeds only if verify does: mandatory buffers present and the server signature is the keyed checksum
+// (usage 17) of its declared type over ZeroSigData; ZeroSigData differs from the PAC octets only by zeroed octets.
+//@ func (*pac.PACType).ProcessPACInfoBuffers(pac, key, l) (err)
+//@   modifies *pac, elems(pac.ZeroSigData)
+//@   trusted_frame the buffer decoders fill structures they allocate themselves; only the PAC object and its to-be-signed copy are written
+//@   requires len(pac.ZeroSigData) == len(pac.Data) && ref(pac.ZeroSigData) != ref(pac.Data)
+//@   ensures err == nil ==> pac.KerbValidationInfo != nil && pac.ServerChecksum != nil && pac.KDCChecksum != nil && pac.ClientInfo != nil
+//@   ensures err == nil ==> exists t Ref :: cksum_etype_ok(int32(pac.ServerChecksum.SignatureType), t) && bytes(pac.ServerChecksum.Signature) == et_cksum(t, bytes(key.KeyValue), 17, bytes(pac.ZeroSigData))
